@@ -207,6 +207,40 @@ def c08_frame():
     return [r]
 
 
+# C02: the default-value constructors (`impl Variables { pub fn default_<name>() -> T }`) are emitted items too.  Whether they
+# type-check is rustc's verdict: one bin target per case in /verif/replay-exec/dflt, `cargo check` is the probe (bounded: these cases).
+C02_DEFAULT_CASES = ["scalars", "enum_value", "enum_list", "object_members", "object_nested",
+                     "recursive_boxed_member", "object_omits_required_with_schema_default", "list_of_nullable_items", "oneof_literal"]
+
+
+def c02_defaults():
+    import vxreplay
+    out = []
+    d = os.path.join(vxreplay.EXEC_DIR, "dflt")
+    env = dict(os.environ, CARGO_NET_OFFLINE="true", CARGO_TARGET_DIR=vxreplay.EXEC_TARGET)
+    for case in C02_DEFAULT_CASES:
+        q = open(os.path.join(d, "gql", case + ".graphql")).read().strip()
+        r = {"obligation": "C02.defaults.%s.bounded" % case, "status": "ok", "bounded": True, "cases": 1,
+             "engine": "rustc (cargo check) on a consumer crate whose derive expands an operation with default values, built against /repo's working tree",
+             "what": "the default-value constructors emitted for `%s` type-check" % q[:110], "bound": "this one operation (schema: replay-exec/dflt/gql/schema.graphql)",
+             "trusted": [], "cmd": "cargo check --offline -p vx-replay-dflt --bin %s (in /verif/replay-exec)" % case}
+        os.utime(os.path.join(d, "src", "bin", case + ".rs"), None)
+        p = subprocess.run(["cargo", "check", "--offline", "-p", "vx-replay-dflt", "--bin", case], cwd=vxreplay.EXEC_DIR, env=env, capture_output=True, text=True)
+        if p.returncode != 0:
+            errs = [l for l in p.stderr.splitlines() if l.startswith("error")]
+            if not errs or not any("vx-replay-dflt" in l for l in p.stderr.splitlines()):
+                r["status"] = "undecided"
+                r["detail"] = "the probe crate could not be built: " + p.stderr[-300:]
+            else:
+                first = next((l for l in errs if not l.startswith("error: could not compile")), errs[0])
+                r["status"] = "fail"
+                r["detail"] = "the module generated for `%s` does not compile: %s" % (q, first)
+                r["witness"] = {"case": {"schema_file": "replay-exec/dflt/gql/schema.graphql", "query": q, "options": {"mode": "derive"}}, "observed": r["detail"], "bounded": True,
+                                "how": "cargo check -p vx-replay-dflt --bin %s (the real derive, built from /repo's working tree)" % case, "cases_tried": 1}
+        out.append(r)
+    return out
+
+
 def extra_checks_inner(pid, tier):
     try:
         if pid in ("C13", "C07", "C03", "C14", "C06"):
@@ -232,6 +266,8 @@ def extra_checks_inner(pid, tier):
             return c05_shape()
         if pid == "C08":
             return c08_frame()
+        if pid == "C02":
+            return c02_defaults()
     except Undecided as e:
         return [{"obligation": pid + ".shape", "status": "undecided", "engine": "declaration-shape", "detail": str(e)}]
     return []
